@@ -25,8 +25,11 @@ def main(argv=None):
     ck = core.Check(a.prop, a.tier, a.seed)
     try:
         mod.run(ck)
-    except Exception:
-        # a crashing check must not look like a pass: report it as a broken correspondence
+    except KeyboardInterrupt:
+        raise
+    except BaseException:
+        # a crashing check must not look like a pass - and must not exit silently either (the code under test may
+        # call sys.exit() in-process): report it as a broken correspondence
         tb = traceback.format_exc()
         sys.stderr.write(tb)
         ck.broken.append('check crashed: ' + tb[-800:])
